@@ -483,8 +483,10 @@ func TestWire(t *testing.T) {
 	replay := os.Getenv("VERIF_REPLAY_INPUT")
 	rng := rand.New(rand.NewPCG(seed, uint64(shard)+1))
 	res := result{Classes: map[string]int{}}
+	nviol := map[string]int{}
 	addV := func(prop, input string, push bool, why string) {
-		if len(res.Violations) < 20 {
+		if nviol[prop] < 20 { // per property: the C02 verdicts must not crowd out the C13 ones
+			nviol[prop]++
 			res.Violations = append(res.Violations, violation{prop, input, push, why})
 		}
 	}
